@@ -156,7 +156,8 @@ func genHistory(g *sim.Stream, f *sim.Stream) []*invocation {
 	if themeNested && n < 4 {
 		n = 4
 	}
-	themeStale4 := !mainFamily && g.Chance(1, 15)
+	themeRequest := !mainFamily && g.Chance(1, 20)
+	themeStale4 := !mainFamily && !themeRequest && g.Chance(1, 15)
 	if themeStale4 && n < 5 {
 		n = 5
 	}
@@ -185,6 +186,18 @@ func genHistory(g *sim.Stream, f *sim.Stream) []*invocation {
 				iv.Fn, iv.Args, iv.Stateful = "imp4", []int{g.Intn(9)}, true
 				mod4Loaded = true
 			}
+			hist = append(hist, iv)
+			continue
+		}
+		if themeRequest && g.Chance(2, 3) {
+			// theme: one script reading the global `request`, run again and again,
+			// with and without a value of its own for this invocation
+			iv.API, iv.Kind, iv.Src = "RunCode", kNormal, "[request, len(request)]"
+			if g.Bool() {
+				iv.ReqTag = fmt.Sprintf("req-%d-%d", k, g.Intn(1000))
+			}
+			sawRunCode, libLive = true, false
+			mod3Loaded, mod4Loaded = false, false
 			hist = append(hist, iv)
 			continue
 		}
@@ -362,7 +375,9 @@ func genHistory(g *sim.Stream, f *sim.Stream) []*invocation {
 				} else if g.Chance(1, 6) {
 					// the host passes this invocation's own value for a global
 					iv.Src = "[request, len(request)]"
-					iv.ReqTag = fmt.Sprintf("req-%d-%d", k, g.Intn(1000))
+					if g.Chance(2, 3) {
+						iv.ReqTag = fmt.Sprintf("req-%d-%d", k, g.Intn(1000))
+					} // (else: the configuration's own value)
 				} else if g.Chance(1, 5) {
 					// every run of this script imports the module afresh
 					iv.Src = "import cmod3\n[cmod3.bump(), cmod3.bump()]"
@@ -412,7 +427,9 @@ func genHistory(g *sim.Stream, f *sim.Stream) []*invocation {
 				}
 			}
 		}
-		if iv.API == "RunCode" && sawRunCode && iv.ReqTag == "" && g.Chance(1, 3) {
+		// (not for the script that reads `request`: without options it would see
+		// whatever value the last configured run had left, by design)
+		if iv.API == "RunCode" && sawRunCode && iv.ReqTag == "" && !strings.Contains(iv.Src, "request") && g.Chance(1, 3) {
 			iv.NoOpts = true
 		}
 		if iv.API == "RunCode" {
@@ -652,7 +669,6 @@ func runC07(rc *fw.RunCtx) {
 		return risor.NewConfig(append(baseOpts(extra), risor.WithImporter(imp), risor.WithOS(vmOS))...)
 	}
 	cfg := newCfg()      // system under test
-	cfgModel := newCfg() // reference runs use their own importer
 
 	// compile payloads once (shared read-only between the VM under test and the models)
 	// (a host that compiles a script once and runs it many times hands the VM
@@ -693,6 +709,10 @@ func runC07(rc *fw.RunCtx) {
 			} else if iv.Kind == kStaleCall {
 				expected[k] = invResult{Err: "<not compared>"}
 			} else {
+				// every reference run gets a configuration (globals map, importer,
+				// OS) of its own: nothing one reference run does to it can reach
+				// the next
+				cfgModel := newCfg()
 				m := newMachine(cfgModel)
 				bg := context.Background()
 				if iv.API == "Call" || (iv.API == "Run" && !iv.IsLib) {
